@@ -2,6 +2,8 @@ CONSTANTS
   Procs = {p1}
   MaxBinds = 1
   MaxTagSet = 3
+  NKindsSingle = 11
+  Bounds = TRUE
   NRand = 1
   NMulti = 1200
   NReqMulti = 8
